@@ -17,6 +17,7 @@ func init() {
 	verifRegister("HarnessPbkvs_Run", HarnessPbkvs_Run)
 	verifRegister("HarnessPbkvs_RunFail", HarnessPbkvs_RunFail)
 	verifRegister("HarnessPbkvs_StepRelation", HarnessPbkvs_StepRelation)
+	verifRegister("HarnessPbkvs_LoopLabels", HarnessPbkvs_LoopLabels)
 	verifRegister("HarnessPbkvs_RunDeep", HarnessPbkvs_RunDeep)
 	verifRegister("HarnessPbkvs_RunFailDeep", HarnessPbkvs_RunFailDeep)
 }
@@ -189,6 +190,106 @@ func HarnessPbkvs_StepRelation() {
 	for _, e := range errs {
 		verifAssert(errors.Is(e, distsys.ErrAssertionFailed) && wantAssert, "C02 pbkvs "+label+": Go fails only with an assertion failure, and only where the specification's assertion fails")
 	}
+	for _, g := range posts {
+		verifAssert(specContains(want, g), "C02 pbkvs "+label+": every committed Go step is a step of the TLA+ action (arbitrary state)")
+	}
+	for _, w := range want {
+		verifAssert(specContains(posts, w), "C02 pbkvs "+label+": every step of the TLA+ action is taken by the Go code (arbitrary state)")
+	}
+	verifReach("end")
+}
+
+// the four loop labels of AReplica (sync after fail-over, replication of a PUT) from arbitrary states, 3 replicas:
+// loop index, the set of replicas still to answer, the stored version, the head of the response mailbox, the
+// failure detector and the crash exploration are arbitrary.
+func HarnessPbkvs_LoopLabels() {
+	verifUnwind(100000, false)
+	label := []string{"sndSyncReqLoop", "rcvSyncRespLoop", "sndReplicaReqLoop", "rcvReplicaRespLoop"}[verifChoose("label", 4)]
+	const nrep = 3
+	s := pbNew(nrep, 1, label != "rcvSyncRespLoop" && verifChoose("explorefail", 2) == 1)
+	st := s.ec.specSuccessorsOf("Init")[0]
+	self := int32(2) // the middle replica: the loops meet a smaller and a larger peer id
+	p := s.procs[self-1]
+	S, N := tla.MakeString, tla.MakeNumber
+	rec := func(kv ...tla.Value) tla.Value {
+		var f []tla.RecordField
+		for i := 0; i+1 < len(kv); i += 2 {
+			f = append(f, tla.RecordField{Key: kv[i], Value: kv[i+1]})
+		}
+		return tla.MakeRecord(f)
+	}
+	setLocal := func(name string, v tla.Value) { st.put(name, specPut(st.get(name), []tla.Value{N(self)}, v)) }
+	setLocal("pc", S(label))
+	reqID := verifNondetInt32("req.id")
+	verifAssume(reqID >= 1 && reqID <= 4)
+	setLocal("req", rec(S("from"), N(nrep+1), S("to"), N(self), S("body"), pbBody("req"), S("srcTyp"), N(1), S("typ"), N(3), S("id"), N(reqID)))
+	setLocal("lastPutBody", pbBody("last"))
+	receiving := label == "rcvSyncRespLoop" || label == "rcvReplicaRespLoop"
+	// (the sending loops do not read replicaSet, the receiving loops do not read idx)
+	var rs []tla.Value
+	if receiving {
+		setLocal("idx", N(nrep+1))
+		for r := int32(1); r <= nrep; r++ {
+			if r != self && verifChoose("inReplicaSet", 2) == 1 {
+				rs = append(rs, N(r))
+			}
+		}
+	} else {
+		setLocal("idx", N(int32(1+verifChoose("idx", nrep+1))))
+		rs = []tla.Value{N(1), N(3)}
+	}
+	setLocal("replicaSet", tla.MakeSet(rs...))
+	fd := st.get("fd")
+	for r := int32(1); r <= nrep; r++ {
+		if r != self {
+			fd = specPut(fd, []tla.Value{N(r)}, tla.MakeBool(verifChoose("fd", 2) == 1))
+		}
+	}
+	st.put("fd", fd)
+	if receiving {
+		if verifChoose("mailbox", 2) == 1 {
+			// the head of the response mailbox: a response of the expected kind, or one that trips the assertion
+			from := int32(1 + verifChoose("resp.from", nrep))
+			verifAssume(from != self)
+			typ, id := int32(6), int32(3)
+			body := pbBody("resp")
+			src := int32(3)
+			if label == "rcvReplicaRespLoop" {
+				typ, id = 4, reqID
+				body = rec(S("content"), S("ack-body"))
+			}
+			switch verifChoose("resp.shape", 5) { // as expected, or wrong in one field
+			case 1:
+				typ = 2
+			case 2:
+				id = 7
+			case 3:
+				src = 2
+			case 4:
+				if label == "rcvReplicaRespLoop" {
+					body = rec(S("content"), S("other"))
+				}
+			}
+			resp := rec(S("from"), N(from), S("to"), N(self), S("body"), body, S("srcTyp"), N(src), S("typ"), N(typ), S("id"), N(id))
+			idx := tla.MakeTuple(N(self), N(2))
+			st.put("network", specPut(st.get("network"), []tla.Value{idx}, specLink(tla.MakeTuple(resp), tla.ModuleTRUE)))
+		}
+	} else {
+		// the request mailboxes of the other replicas may be disabled (crashed)
+		for r := int32(1); r <= nrep; r++ {
+			if r != self && verifChoose("peer.disabled", 2) == 1 {
+				idx := tla.MakeTuple(N(r), N(1))
+				st.put("network", specPut(st.get("network"), []tla.Value{idx}, specLink(tla.MakeTuple(), tla.ModuleFALSE)))
+			}
+		}
+	}
+	posts, errs := s.d.allSteps(p, st)
+	want := s.ec.specSuccessors(st, label, p.self)
+	wantAssert := s.ec.assertFailed
+	for _, e := range errs {
+		verifAssert(errors.Is(e, distsys.ErrAssertionFailed) && wantAssert, "C02 pbkvs "+label+": Go fails only with an assertion failure, and only where the specification's assertion fails")
+	}
+	verifAssert(!wantAssert || len(errs) > 0, "C02 pbkvs "+label+": where the specification's assertion fails, the Go code fails")
 	for _, g := range posts {
 		verifAssert(specContains(want, g), "C02 pbkvs "+label+": every committed Go step is a step of the TLA+ action (arbitrary state)")
 	}
